@@ -1,7 +1,8 @@
 ------------------------------- MODULE FuncAlg -------------------------------
 (***************************************************************************)
-(* E10 / C41, C30: Function objects, step helpers, interpolating splines   *)
-(* and polynomials given by their roots, on an exact sub-domain.           *)
+(* E10 / C41, C30, C40: Function objects, step helpers, interpolating      *)
+(* splines, polynomials given by their roots, and quadratic maps with      *)
+(* their Jacobians, on an exact sub-domain.                                *)
 (*                                                                         *)
 (* A function of the library is, on this sub-domain, a POLYNOMIAL with     *)
 (* integer coefficients (or a polynomial composed with an affine map, or   *)
@@ -34,6 +35,11 @@
 (*           integers: TLC expands the product (Vieta) and checks that     *)
 (*           every z_i/q_i makes the expanded polynomial vanish; the root  *)
 (*           finder applied to the coefficients must return these roots    *)
+(*                                                                         *)
+(*   diff    a quadratic map in several variables with its exact Jacobian   *)
+(*           and curvatures: what finite differences of order 1 and 2 must  *)
+(*           return (exact for affine maps; exact for quadratics with the   *)
+(*           central formula; off by exactly h A_jj with the one-sided one) *)
 (*                                                                         *)
 (* The facts about the step polynomial S(x) = 10x^3 - 15x^4 + 6x^5 that    *)
 (* the property names (end values, monotone, twice continuously            *)
@@ -142,6 +148,22 @@ RootsCase(c) ==
       constant |-> P[1] = ZMul(lead, ZProd([i \in 1..n |-> <<-c.factors[i].a, -c.factors[i].b>>], 1)),
       realcoef |-> (c.real = 1) => \A k \in 1..(n + 1) : P[k][2] = 0]
 
+\* ---------------------------------------------------------------- quadratic maps and their Jacobians (C40)
+\* f_i(x) = sum_jk A[i][j][k] x_j x_k + sum_j B[i][j] x_j + C[i], integer A, B, C, argument x_j = xp[j]/q.
+\* The Jacobian is the formal derivative: J_ij = sum_k (A[i][j][k] + A[i][k][j]) x_k + B[i][j]; the second derivative along
+\* x_j is 2 A[i][j][j], so a one-sided difference with step h is off by exactly h A[i][j][j] and a central difference is exact.
+DiffCase(c) ==
+  LET nf == Len(c.B)  ny == Len(c.xp)
+      F(i) == SumTo(LAMBDA j : SumTo(LAMBDA k : c.A[i][j][k] * c.xp[j] * c.xp[k], 1, ny), 1, ny)
+              + c.q * SumTo(LAMBDA j : c.B[i][j] * c.xp[j], 1, ny) + c.q * c.q * c.C[i]
+      Jn(i, j) == SumTo(LAMBDA k : (c.A[i][j][k] + c.A[i][k][j]) * c.xp[k], 1, ny) + c.q * c.B[i][j]
+  IN [f |-> [i \in 1..nf |-> [n |-> F(i), d |-> c.q * c.q]],
+      J |-> [i \in 1..nf |-> [j \in 1..ny |-> [n |-> Jn(i, j), d |-> c.q]]],
+      curv |-> [i \in 1..nf |-> [j \in 1..ny |-> c.A[i][j][j]]],
+      \* evaluations of the user function one differentiation costs (given the unperturbed value): one per variable for
+      \* the one-sided formula, two for the central one
+      calls |-> [forward |-> ny, central |-> 2 * ny]]
+
 \* ---------------------------------------------------------------- cases
 Orders(P, p, q, nmax) == [k \in 1..(nmax + 1) |-> PEval(PDerivN(P, k - 1), p, q)]
 Case(c) ==
@@ -167,6 +189,7 @@ Case(c) ==
           slope |-> [n |-> y1 - y0, d |-> x1 - x0]]
 
     [] c.kind = "roots" -> RootsCase(c)
+    [] c.kind = "diff" -> DiffCase(c)
     [] c.kind = "interp" -> [knots |-> c.y]      \* an interpolating spline takes the data values at the knots
 
 AInit == l = 1
